@@ -368,6 +368,42 @@ def _trace_collect(v, results):
     log("  traces: %d validated, %d executions" % (v.traces, stats.get("executions", 0)))
 
 
+def block_queue_ref(v, tier, seed):
+    """BlockQueueRef.tla: the +2 a submitted block object keeps on its queue through dbpd_queue must exist before the
+    pointer is published (finding F9, fixed by 17b1d41: a dispatch_block_wait between cmpxchg and retain over-released the
+    queue).  TLC checks the protocol and refutes the pinned order; harness/drv_blockq.c holds the submitter (async, sync,
+    async_and_wait) right after its cmpxchg while another thread waits with a short timeout."""
+    base = open(os.path.join(SPEC, "cfg", "BlockQueueRef.cfg")).read()
+    for mut in ("none", "publish_before_retain"):
+        cfg = os.path.join(rundir(PROP), "BlockQueueRef_%s.cfg" % mut)
+        open(cfg, "w").write(base.replace('Mut = "none"', 'Mut = "%s"' % mut))
+        r = tlc_must_pass("BlockQueueRef/" + mut, "BlockQueueRef.tla", cfg, timeout=300, workers=2, metaname="C19_bqr_" + mut)
+        if mut == "none":
+            v.add_model("BlockQueueRef", r)
+            if r.violated:
+                v.violation("BlockQueueRef.tla violates %s" % r.violated, save_replay(PROP, "BlockQueueRef.tlc.out", r.out))
+        elif not r.violated:
+            raise Broken("spec mutant publish_before_retain (BlockQueueRef) is not refuted")
+        else:
+            v.notes.setdefault("spec_mutants_refuted", []).append({"spec": "BlockQueueRef", "mutant": mut, "by": r.violated})
+    drv = build_driver("drv_blockq")
+    tr = os.path.join(rundir(PROP), "blockq.ndjson")
+    rc, out, err = sh([drv, tr, str(seed * 100 + 79), "9" if tier == "quick" else "45"], timeout=600)
+    m = re.search(r"rounds=(\d+) windows_hit=(\d+)", err)
+    if rc in (2, 70, 71):
+        fails = re.findall(r"ORACLE-FAIL C19 (.*)", err)
+        what = {2: "API oracle", 70: "crash inside libdispatch (legal client program)", 71: "hang"}[rc]
+        v.violation("%s: dispatch_block_wait racing the submission of the block object (queue published in dbpd_queue): %s" %
+                    (what, "; ".join(fails[:3]) or err.strip()[-400:]), save_replay(PROP, "blockq_fail.txt", err[-6000:]))
+        return
+    if rc != 0 or not m:
+        raise Broken("drv_blockq failed rc=%d: %s" % (rc, err[-500:]))
+    if int(m.group(2)) == 0:
+        raise Broken("drv_blockq never held a submitter after its publication (steering ineffective)")
+    v.traces += 1
+    v.notes["block_queue_ref_windows_hit"] = "%s of %s rounds" % (m.group(2), m.group(1))
+
+
 def run(tier, seed):
     v = Verdict(PROP, tier, seed)
     v.assumptions = [
@@ -387,6 +423,7 @@ def run(tier, seed):
         for kind, key, f in mf:
             _model_collect(v, kind, key, f.result())
     _trace_collect(v, tres)
+    block_queue_ref(v, tier, seed)
     return v.finish()
 
 
